@@ -2020,7 +2020,10 @@ def check_implied(context, expr, decls):
         expr  - implied attribute value
         decls - list of Declarations
     """
-    node = declast.ExprParser(expr).expression()
+    parser = declast.ExprParser(expr)
+    node = parser.expression()
+    # The whole text must be an expression, 'size(a) 2' is not.
+    parser.mustbe("EOF")
     visitor = CheckImplied(context, expr, decls)
     return visitor.visit(node)
 
